@@ -349,6 +349,11 @@ fn cleanup_case(site: u32) -> (String, &'static str, &'static str) {
             t.push_str("/begin GROUP g \"\" ROOT /begin SUB_GROUP hx /end SUB_GROUP /end GROUP\n/begin GROUP hx \"\" /begin REF_CHARACTERISTIC ch /end REF_CHARACTERISTIC /end GROUP\n");
             ("GROUP", "hx")
         }
+        15 => {
+            // empty FUNCTION referenced only from the FUNCTION_LIST of a GROUP that is itself removed: both must go in one run
+            t.push_str("/begin FUNCTION zfn2 \"\" /end FUNCTION\n/begin GROUP zg2 \"\" /begin FUNCTION_LIST zfn2 /end FUNCTION_LIST /end GROUP\n");
+            ("", "")
+        }
         _ => ("", ""),
     };
     // unreferenced helpers of every kind: must all be removed
@@ -373,7 +378,7 @@ fn helper_present(m: &Module, kind: &str, name: &str) -> bool {
 }
 
 pub(crate) fn h_cleanup_sites() {
-    let site = vrt_choice(15);
+    let site = vrt_choice(16);
     let (text, kind, name) = cleanup_case(site);
     let (mut file, _log) = load_from_string(&text, None, true).unwrap();
     let before = file.clone();
@@ -390,6 +395,7 @@ pub(crate) fn h_cleanup_sites() {
         vrt_check(!m.compu_method.contains_key("zcm") && !m.compu_tab.contains_key("zct") && !m.compu_vtab.contains_key("zcv")
             && !m.unit.contains_key("zun") && !m.record_layout.contains_key("zrl") && !m.group.contains_key("zg") && !m.function.contains_key("zfn"),
             "C10 cleanup removes every unreferenced helper");
+        vrt_check(!m.function.contains_key("zfn2") && !m.group.contains_key("zg2"), "C10 cleanup removes a helper whose only referrer is removed in the same run");
     }
     vrt_check(xref_errors(&file) == 0, "C10 a file whose references all resolve still resolves after cleanup");
     let once = file.clone();
@@ -397,11 +403,17 @@ pub(crate) fn h_cleanup_sites() {
     vrt_check(file == once, "C10 running cleanup twice gives the same result as running it once");
 }
 
-/// UNIT chains that are not anchored in a used COMPU_METHOD: idempotence
+/// UNIT chains: anchored in a used COMPU_METHOD (every unit must survive, in any definition order) or not (idempotence)
 pub(crate) fn h_cleanup_unit_chain() {
-    let n = vrt_choice(4); // length of the chain ux0 -> ux1 -> ...
+    let n = vrt_choice(6); // length of the chain ux0 -> ux1 -> ...
+    let anchored = vrt_choice(2) == 1;
+    let reversed = vrt_choice(2) == 1;
     let mut t = String::from("ASAP2_VERSION 1 71 /begin PROJECT p \"\" /begin MODULE m \"\"\n");
-    for i in 0..n {
+    if anchored && n > 0 {
+        t.push_str("/begin COMPU_METHOD cm \"\" IDENTICAL \"%6.3\" \"\" REF_UNIT ux0 /end COMPU_METHOD\n/begin MEASUREMENT ms \"\" UBYTE cm 0 0 0 255 /end MEASUREMENT\n");
+    }
+    for k in 0..n {
+        let i = if reversed { n - 1 - k } else { k };
         t.push_str("/begin UNIT ux");
         t.push((b'0' + i as u8) as char);
         t.push_str(" \"\" \"\" DERIVED");
@@ -414,6 +426,11 @@ pub(crate) fn h_cleanup_unit_chain() {
     t.push_str("/end MODULE /end PROJECT");
     let (mut file, _) = load_from_string(&t, None, true).unwrap();
     file.cleanup();
+    if anchored {
+        vrt_check(file.project.module[0].unit.len() == n as usize, "C10 cleanup never removes a UNIT that is still referenced through a REF_UNIT chain from a used COMPU_METHOD");
+    } else {
+        vrt_check(file.project.module[0].unit.len() == 0, "C10 cleanup removes every unreferenced helper (UNIT chain without a user)");
+    }
     let once = file.clone();
     file.cleanup();
     vrt_check(file == once, "C10 running cleanup twice gives the same result as running it once");
@@ -584,7 +601,22 @@ pub(crate) fn h_merge_scenarios() {
 
 /// FUNCTION / GROUP are merged by name, USER_RIGHTS / VARIANT_CODING are moved: their references must follow the renaming
 pub(crate) fn h_merge_named_union() {
-    let sc = vrt_choice(2);
+    let sc = vrt_choice(3);
+    if sc == 2 {
+        // A's FUNCTION / GROUP of the same name have no members and other attributes: they may only gain members
+        let a_text = "ASAP2_VERSION 1 71 /begin PROJECT p \"\" /begin MODULE m \"\"\n/begin MEASUREMENT ms \"2\" UBYTE NO_COMPU_METHOD 0 0 0 255 /end MEASUREMENT\n/begin RECORD_LAYOUT rl FNC_VALUES 2 UBYTE ROW_DIR DIRECT /end RECORD_LAYOUT\n/begin CHARACTERISTIC ch \"2\" VALUE 0 rl 0 NO_COMPU_METHOD 0 255 /end CHARACTERISTIC\n/begin FUNCTION fn1 \"text of A\" FUNCTION_VERSION \"v1\" /end FUNCTION\n/begin FUNCTION fn2 \"\" /end FUNCTION\n/begin GROUP g1 \"text of A\" /end GROUP\n/begin GROUP g2 \"\" /end GROUP\n/end MODULE /end PROJECT";
+        let mut a = load_ok(a_text);
+        let mut b = load_ok(&expand(MERGE_T2, "", "2"));
+        a.merge_modules(&mut b);
+        let m = &a.project.module[0];
+        let f = m.function.get("fn1").unwrap();
+        vrt_soft_check(f.long_identifier == "text of A" && f.function_version.is_some(), "C08 a FUNCTION of A keeps its own attributes, it may only gain members");
+        vrt_soft_check(f.in_measurement.is_some() && f.def_characteristic.is_some() && f.sub_function.is_some(), "C08 a FUNCTION of A gains the members of the same-name FUNCTION of B");
+        let g = m.group.get("g1").unwrap();
+        vrt_soft_check(g.long_identifier == "text of A", "C08 a GROUP of A keeps its own attributes, it may only gain members");
+        vrt_soft_check(g.ref_measurement.is_some() && g.ref_characteristic.is_some(), "C08 a GROUP of A gains the members of the same-name GROUP of B");
+        return;
+    }
     // A has conflicting ms / ch / rl (so B's get renamed); sc 1: A additionally has its own fn1 / g1 to be united
     let mut a_text = expand(MERGE_T2, "", "1");
     if sc == 0 {
